@@ -353,12 +353,15 @@ func (n *cnNet) buildGenesis() error {
 		Consensus: consensusGenesis.Genesis{
 			Backend: cmtapi.BackendName,
 			Parameters: consensusGenesis.Parameters{
-				TimeoutCommit:     time.Millisecond,
-				SkipTimeoutCommit: true,
-				MaxBlockSize:      21 * 1024 * 1024,
-				MaxEvidenceSize:   1024 * 1024,
-				MaxTxSize:         32768,
-				GasCosts:          transaction.Costs{consensusGenesis.GasOpTxByte: 1},
+				StateCheckpointInterval:  10,
+				StateCheckpointNumKept:   2,
+				StateCheckpointChunkSize: 1024,
+				TimeoutCommit:            time.Millisecond,
+				SkipTimeoutCommit:        true,
+				MaxBlockSize:             21 * 1024 * 1024,
+				MaxEvidenceSize:          1024 * 1024,
+				MaxTxSize:                32768,
+				GasCosts:                 transaction.Costs{consensusGenesis.GasOpTxByte: 1},
 			},
 		},
 		Staking: stk,
@@ -436,13 +439,15 @@ func (n *cnNet) signNode(v *cnValidator, nd *node.Node, ctx signature.Context) (
 // replica
 
 type cnReplicaCfg struct {
-	Backend  string // badger | pathbadger
-	OnDisk   bool
-	Identity int // index of the validator identity this replica runs with
-	KeepN    uint64
-	Probes   bool
-	Sanity   bool
-	MinGas   uint64
+	Backend     string // badger | pathbadger
+	OnDisk      bool
+	Identity    int // index of the validator identity this replica runs with
+	KeepN       uint64
+	Probes      bool
+	Sanity      bool
+	MinGas      uint64
+	Checkpoints bool // run the checkpointer (state-sync source)
+	NoInit      bool // no InitChain on an empty database (state-sync target)
 }
 
 type cnReplica struct {
@@ -480,15 +485,16 @@ func (r *cnReplica) start(fresh bool) error {
 		pc = abci.PruneConfig{Strategy: abci.PruneKeepN, NumKept: r.cfg.KeepN, PruneInterval: time.Hour}
 	}
 	appCfg := &abci.ApplicationConfig{
-		DataDir:             r.dir,
-		StorageBackend:      r.cfg.Backend,
-		Pruning:             pc,
-		MinGasPrice:         r.cfg.MinGas,
-		DisableCheckpointer: true,
-		Identity:            r.net.vals[r.cfg.Identity].ident,
-		MemoryOnlyStorage:   !r.cfg.OnDisk,
-		InitialHeight:       1,
-		ChainContext:        r.net.chainCtx,
+		DataDir:                   r.dir,
+		StorageBackend:            r.cfg.Backend,
+		Pruning:                   pc,
+		MinGasPrice:               r.cfg.MinGas,
+		DisableCheckpointer:       !r.cfg.Checkpoints,
+		CheckpointerCheckInterval: 5 * time.Millisecond,
+		Identity:                  r.net.vals[r.cfg.Identity].ident,
+		MemoryOnlyStorage:         !r.cfg.OnDisk,
+		InitialHeight:             1,
+		ChainContext:              r.net.chainCtx,
 	}
 	srv, err := abci.NewApplicationServer(r.ctx, nil, appCfg)
 	if err != nil {
@@ -544,7 +550,7 @@ func (r *cnReplica) start(fresh bool) error {
 		// CometBFT's handshake: an application without committed blocks is initialised again
 		fresh = r.mux.Info(cmtabci.RequestInfo{}).LastBlockHeight == 0
 	}
-	if fresh {
+	if fresh && !r.cfg.NoInit {
 		gd, err := cmtapi.GetCometBFTGenesisDocument(r.net.doc)
 		if err != nil {
 			return fmt.Errorf("cometbft genesis: %w", err)
